@@ -7,6 +7,7 @@ from asyncfix.errors import FIXConnectionError
 from asyncfix.message import FIXMessage, MessageDirection
 from vlib.hyp import run_given
 from vlib.reffix import ref_encode, ref_get, ref_msg
+from vlib.reffix import ref_parse as ref_parse_
 from vlib.runner import derive_seed
 from vlib.sess import Bench
 
@@ -17,7 +18,7 @@ RULE = (
     "connected before its Logon, initiator after sending Logon, the same three states on the second connection of an object that "
     "already had a session (the client having been logged on by the peer first), ACTIVE x2 roles, RESENDREQ_AWAITING x2 roles} x inbound class in "
     "{Logon, Logout, Heartbeat, TestRequest, ResendRequest, GapFill, Reset, Reject, application} x defect in {none, wrong "
-    "BeginString, SenderCompID missing / wrong, TargetCompID missing / wrong, CompIDs swapped, MsgSeqNum missing, number below / "
+    "BeginString (FIX.4.2, FIX.4.4x, FIX.4.40, FIX.4.4.1, FIX.5.0, FIXT.1.1), SenderCompID missing / wrong, TargetCompID missing / wrong, CompIDs swapped, MsgSeqNum missing, number below / "
     "at / above the expected one}; then send attempts of every message class (application, Heartbeat, TestRequest, Logon, Logout, "
     "ResendRequest, Reject, SequenceReset), also in the three disconnected states; after every disconnect Hypothesis-drawn further "
     "input (valid frames, garbage, EOF) and virtual time. Oracle: pre-logon a non-Logon frame is never delivered nor acted upon and "
@@ -34,9 +35,12 @@ ASSUMPTIONS = [
 STATES = ["acc-connected", "init-connected", "init-logon-sent", "acc-active", "init-active", "acc-awaiting", "init-awaiting",
           # the same pre-logon states on the SECOND connection of one object (after a complete earlier session in which
           # the client was talked to first, i.e. took the acceptor part of the Logon exchange)
-          "acc2-connected", "init2-connected", "init2-logon-sent"]
+          "acc2-connected", "init2-connected", "init2-logon-sent",
+          # ACTIVE on the second connection of an object whose first session was ended by the endpoint itself with a
+          # Logout stating a reason (too-low MsgSeqNum)
+          "acc2-active", "init2-active"]
 CLASSES = ["A", "5", "0", "1", "2", "GF", "RS", "3", "D"]
-DEFECTS = ["none", "begin", "sender-missing", "sender-wrong", "target-missing", "target-wrong", "swapped", "seq-missing", "seq-low", "seq-at", "seq-high"]
+DEFECTS = ["none", "begin", "begin:FIX.4.4x", "begin:FIX.4.40", "begin:FIX.4.4.1", "begin:FIX.5.0", "begin:FIXT.1.1", "sender-missing", "sender-wrong", "target-missing", "target-wrong", "swapped", "seq-missing", "seq-low", "seq-at", "seq-high"]
 SENDS = ["D", "0", "1", "A", "5", "2", "3", "4"]
 PRE = {"acc-connected", "init-connected", "init-logon-sent", "acc2-connected", "init2-connected", "init2-logon-sent"}
 
@@ -73,6 +77,22 @@ def second_connection(state):
     from asyncfix import FMsg as _F
     from asyncfix.message import FIXMessage as _M
 
+    if state in ("acc2-active", "init2-active"):
+        role = "acceptor" if state.startswith("acc") else "initiator"
+        b = Bench(role, "active", next_in=4, next_out=4)
+        b.feed(b.frame("0", b.E - 1))  # too low -> Logout with a reason text, disconnect
+        if not b.disconnected():
+            raise RuntimeError(f"first session did not end: {b.ep.connection_state!r}")
+        b.w.advance(1.01)
+        if role == "acceptor":
+            b.link = b.w.attach_server_only()
+        else:
+            b.w.connect_client()
+            b.link = b.w.link
+        b.reader, b.writer = b.link.readers[b.side], b.link.writers[b.side]
+        b.feed(b.frame("A", b.E, [(98, 0), (108, 30)]))
+        b.mark()
+        return b
     if state.startswith("acc2"):
         b = Bench("acceptor", "active", next_in=4, next_out=4)
         b.feed(b.frame("D", b.E, [(11, "first-session")]))
@@ -140,7 +160,7 @@ def build_frame(b, cls, defect, E, uid):
         hdr[0], hdr[1] = (49, target), (56, sender)
     elif defect == "seq-missing":
         hdr = [h for h in hdr if h[0] != 34]
-    begin = b"FIX.4.2" if defect == "begin" else b"FIX.4.4"
+    begin = b"FIX.4.2" if defect == "begin" else (defect.split(":", 1)[1].encode() if defect.startswith("begin:") else b"FIX.4.4")
     return ref_encode(mt, hdr + fields, begin=begin)
 
 
@@ -240,7 +260,7 @@ def one_case(acc, state, cls, defect, extra=(), uid=1):
         ep = b.ep
         exp_state = {"acc2-connected": "NETWORK_CONN_ESTABLISHED", "init2-connected": "NETWORK_CONN_ESTABLISHED", "init2-logon-sent": "LOGON_INITIAL_SENT",
                      "acc-connected": "NETWORK_CONN_ESTABLISHED", "init-connected": "NETWORK_CONN_ESTABLISHED", "init-logon-sent": "LOGON_INITIAL_SENT",
-                     "acc-active": "ACTIVE", "init-active": "ACTIVE", "acc-awaiting": "RESENDREQ_AWAITING", "init-awaiting": "RESENDREQ_AWAITING"}[state]
+                     "acc-active": "ACTIVE", "init-active": "ACTIVE", "acc2-active": "ACTIVE", "init2-active": "ACTIVE", "acc-awaiting": "RESENDREQ_AWAITING", "init-awaiting": "RESENDREQ_AWAITING"}[state]
         if ep.connection_state.name != exp_state:
             bad("setup/state-not-reached", f"clean traffic led to {ep.connection_state.name}, expected {exp_state}")
             return
@@ -279,7 +299,7 @@ def one_case(acc, state, cls, defect, extra=(), uid=1):
                 if acted:
                     bad(f"acted-upon/{reason}", f"endpoint answered with {acted}")
 
-        if defect == "begin":
+        if defect.startswith("begin"):
             if s1["msgs"] != s0["msgs"] or evs or s1["E"] != s0["E"] or s1["N"] != s0["N"] or wr:
                 bad("wrong-beginstring-had-effect", f"callbacks={evs} written={[ref_get(p, 35) for _, p in wr]} E {s0['E']}->{s1['E']}")
         elif pre and cls != "A":
@@ -302,6 +322,10 @@ def one_case(acc, state, cls, defect, extra=(), uid=1):
                 expect_dropped(defect, True)
             elif defect == "seq-low" and not seqreset and "awaiting" not in state:
                 expect_dropped(defect, True)
+        if pre and (ep.connection_state.name in ("ACTIVE", "RESENDREQ_AWAITING", "RESENDREQ_HANDLING") or "logon" in evs or s1["msgs"] != s0["msgs"]):
+            sent_logon = any(ref_get(ref_parse_(x), 35) == "A" for x in b.all_written())
+            if not sent_logon:
+                bad("established-without-own-logon", f"endpoint is {ep.connection_state.name} (callbacks {evs}) although it never sent a Logon on this connection")
         nt = defect != "none" or pre
         acc.case((state, cls, defect, tuple(extra)) if nt else None, cls=[f"state={state}", f"defect={defect}", "disconnected" if disc_now else "connected"],
                  sample={"state": state, "class": cls, "defect": defect, "after": ep.connection_state.name, "written": [ref_get(p, 35) for _, p in wr]}
@@ -370,7 +394,7 @@ def disconnected_states(acc):
 # ------------------------------------------------------------------ drawn follow-up input
 def hyp_shard(acc, n, seed):
     piece = st.one_of(st.binary(max_size=40), st.just("EOF"), st.sampled_from(["V-D", "V-1", "V-A", "V-2", "V-4"]))
-    strat = st.tuples(st.sampled_from(STATES), st.sampled_from(CLASSES), st.sampled_from([d for d in DEFECTS if d not in ("none", "seq-at", "seq-high", "begin")]),
+    strat = st.tuples(st.sampled_from(STATES), st.sampled_from(CLASSES), st.sampled_from([d for d in DEFECTS if d not in ("none", "seq-at", "seq-high") and not d.startswith("begin")]),
                       st.lists(piece, min_size=1, max_size=6))
 
     def one(x):
